@@ -62,6 +62,10 @@ pub trait Spec: 'static {
     fn eq(_a: &Self::R, _b: &Self::R) -> Option<bool> {
         None
     }
+    /// `a != b` through PartialEq::ne (must be the negation of ==)
+    fn ne(_a: &Self::R, _b: &Self::R) -> Option<bool> {
+        None
+    }
     fn bincode(_r: &Self::R) -> Option<Vec<u8>> {
         None
     }
@@ -107,6 +111,9 @@ macro_rules! spec {
     (@eq true) => {
         fn eq(a: &Self::R, b: &Self::R) -> Option<bool> {
             Some(a == b)
+        }
+        fn ne(a: &Self::R, b: &Self::R) -> Option<bool> {
+            Some(a != b)
         }
     };
     (@eq false) => {};
@@ -169,6 +176,9 @@ impl Spec for SHc128 {
     const HIDES_STATE: bool = true;
     fn eq(a: &Self::R, b: &Self::R) -> Option<bool> {
         Some(a == b)
+    }
+    fn ne(a: &Self::R, b: &Self::R) -> Option<bool> {
+        Some(a != b)
     }
 }
 
